@@ -15,7 +15,8 @@ open Opus
 
 theorem encDone_contains_ext (c : Enc) (inv : EncInv c) (ri : RawInv c) (hb : BytesOk c.buf)
     (hn : c.nbitsTotal < 4294967296) (herr : (encDone c).error = 0) :
-    ∃ n, n ≤ c.storage ∧ ∀ (B' : List Nat) (S' : Nat), (∀ i, byteAt B' S' i < 256) →
+    ∃ n, n ≤ c.storage ∧ 8 * n + ilog c.rng ≤ 8 * encM c + 40 ∧
+      ∀ (B' : List Nat) (S' : Nat), (∀ i, byteAt B' S' i < 256) →
       (∀ i, i < n → byteAt B' S' i = byteAt (encDone c).buf c.storage i) → Contains B' S' c := by
   rw [encDone_eq'] at herr ⊢
   have herr2 : (doneRange c).1.error = 0 := by
@@ -29,7 +30,7 @@ theorem encDone_contains_ext (c : Enc) (inv : EncInv c) (ri : RawInv c) (hb : By
   obtain ⟨_, d1, d2, d3, ⟨δ, hδ, hcv⟩, d5⟩ := doneRaw_spec c2 T hT wf2.offs_le wf2.storage_le
     ⟨by rw [s3, s4]; exact ri.win_lt, by rw [s4]; exact ri.nend_le⟩ hb2 hz herr
   rw [s1] at hcv
-  refine ⟨c2.offs, by have := wf2.offs_le; rw [s1] at this; omega, ?_⟩
+  refine ⟨c2.offs, by have := wf2.offs_le; rw [s1] at this; omega, by omega, ?_⟩
   intro B' S' hby hag
   apply hcont B' S' hby δ hδ
   rw [← hcv]
@@ -125,5 +126,18 @@ theorem decode_flags_prefix_stream (buf : List Nat) (size k : Nat) (pre suf : Li
   rw [hw, hself] at a1
   rw [decRun_append]
   exact ⟨matchAll_append m0 m1, a1⟩
+
+/-- `ec_enc_patch_initial_bits` leaves `rng` and `nbits_total` alone. -/
+theorem patch_rn (c : Enc) (v n : Nat) :
+    (encPatchInitialBits c v n).rng = c.rng ∧ (encPatchInitialBits c v n).nbitsTotal = c.nbitsTotal := by
+  unfold encPatchInitialBits
+  simp only
+  split
+  · exact ⟨rfl, rfl⟩
+  · split
+    · exact ⟨rfl, rfl⟩
+    · split
+      · exact ⟨rfl, rfl⟩
+      · split <;> exact ⟨rfl, rfl⟩
 
 end Opus.RangeCoder
